@@ -8,6 +8,7 @@ import (
 	"strconv"
 	"strings"
 	"sync"
+	"sync/atomic"
 	"testing"
 
 	restful "github.com/emicklei/go-restful/v3"
@@ -203,7 +204,19 @@ func attrsOf(req *restful.Request, ids []string) string {
 	return strings.Join(have, ",")
 }
 
-type wrapWriter struct{ http.ResponseWriter }
+// wrapWriter is the writer a middleware puts in place of the one it received; it counts the
+// flushes that reach it.
+type wrapWriter struct {
+	http.ResponseWriter
+	flushed int32
+}
+
+func (w *wrapWriter) Flush() {
+	atomic.AddInt32(&w.flushed, 1)
+	if f, ok := w.ResponseWriter.(http.Flusher); ok {
+		f.Flush()
+	}
+}
 
 const c06ReqHeader = "X-Verif-Req"
 
@@ -302,10 +315,10 @@ func checkC06(c C06Case, partName string) (vs []*Violation) {
 					r2 = r.WithContext(r.Context())
 				}
 				if f.Kind == "mw_w" || f.Kind == "mw_rw" {
-					w2 = &wrapWriter{w}
+					w2 = &wrapWriter{ResponseWriter: w}
 				}
 				if f.Kind == "mw_async" {
-					w2 = &wrapWriter{w}
+					w2 = &wrapWriter{ResponseWriter: w}
 				}
 				rid := r.Header.Get(c06ReqHeader)
 				ev := mwRec(rid)
@@ -354,6 +367,8 @@ func checkC06(c C06Case, partName string) (vs []*Violation) {
 		}
 	}
 
+	var flushMu sync.Mutex
+	var flushProblems []string
 	ct := restful.NewContainer()
 	ct.DoNotRecover(false)
 	ct.RecoverHandler(func(p interface{}, w http.ResponseWriter) { w.WriteHeader(500) })
@@ -397,6 +412,16 @@ func checkC06(c C06Case, partName string) (vs []*Violation) {
 				rec.add(req.Request.Header.Get(c06ReqHeader), &c06Event{ID: hid, Recv: stateOf(req, resp)})
 				if r.Panics {
 					panic("handler panics")
+				}
+				// the Response that was passed on works on the writer that was passed on with it
+				if ww, ok := resp.ResponseWriter.(*wrapWriter); ok {
+					before := atomic.LoadInt32(&ww.flushed)
+					resp.Flush()
+					if atomic.LoadInt32(&ww.flushed) != before+1 {
+						flushMu.Lock()
+						flushProblems = append(flushProblems, hid+": Flush on the Response the route function received did not reach the writer the last middleware passed on")
+						flushMu.Unlock()
+					}
 				}
 				resp.WriteHeader(200)
 			}))
@@ -616,6 +641,11 @@ func checkC06(c C06Case, partName string) (vs []*Violation) {
 		}
 		labels = append(labels, "class_"+class)
 	}
+	flushMu.Lock()
+	for _, fp := range model.SortedSet(flushProblems) {
+		vs = append(vs, viol("", "%s", fp))
+	}
+	flushMu.Unlock()
 	st.Case(c, nontrivial, labels...)
 	return vs
 }
